@@ -31,7 +31,11 @@ Others == {PL(<<1, 1>>, <<-1, 4>>), PL(<<-1, 5>>, <<1, 1>>), PL(<<-1, 3>>, <<-1,
 (* pieces, negative coordinates all occur) *)
 GridPts == {<<x, y>> : x \in {-3, -1, 1, 3}, y \in (IF GeoRich THEN {-3, -2, 0, 2} ELSE {-2, 0, 2})}
 GridSegs == {PL(<<p[1], q[1]>>, <<p[2], q[2]>>) : p, q \in GridPts} \ {PL(<<p[1], p[1]>>, <<p[2], p[2]>>) : p \in GridPts}
+(* polylines that pass twice through one point (0,0) resp. (1,0): a segment through that point crosses two pieces *)
+(* at the SAME parameter of the segment - two different crossings (t, u1), (t, u2)                               *)
+Bowties == {PL(<<-2, 2, 2, -2>>, <<-3, 3, -3, 3>>), PL(<<-1, 3, 3, -1>>, <<-2, 2, -2, 2>>)}
 Zigzags == {PL(<<-3, -1, 1, 3>>, <<-2, 2, -2, 2>>), PL(<<-3, 3, -3, 3>>, <<-3, -1, 1, 3>>), PL(<<1, 3, 1, 3>>, <<-3, -3, -1, -1>>)}
+           \cup Bowties
 
 (* points ON the polyline, very close to (but not at) an interior vertex: distances to the two neighbouring  *)
 (* segments differ by ~1e-3, far more than the 1e-6 of the equidistance filter                                *)
@@ -82,6 +86,7 @@ MCArgs(name, h, dep) ==
                 : A \in {x \in Lines : Mine(h, x)}}
          \cup {[A |-> A, B |-> B, elev |-> 0] : A \in {x \in GridSegs : Mine(h, x)}, B \in GridSegs}
          \cup {[A |-> A, B |-> B, elev |-> 0] : A \in {x \in Zigzags : Mine(h, x)}, B \in GridSegs \cup Zigzags}
+         \cup {[A |-> A, B |-> B, elev |-> 0] : A \in {x \in GridSegs : Mine(h, x)}, B \in Bowties}
     [] OTHER -> {}
 
 (* C20 generator sanity: every generated pair is in the guaranteed class (no end-point touches,   *)
